@@ -139,6 +139,12 @@ FEATURES = {
                             "paths": {"/things": {"get": {"operationId": "getThing", "responses": {"200": {"description": "ok", "content": {"application/json": {"schema": S("Thing")}}}}},
                                                   "post": {"operationId": "postThing", "requestBody": {"required": True, "content": {"application/json": {"schema": S("Thing")}}}, "responses": {"204": {"description": "ok"}}}},
                                       "/things/{id}": {"delete": {"operationId": "deleteThing", "parameters": [{"name": "id", "in": "path", "required": True, "schema": {"type": "string"}}], "responses": {"204": {"description": "ok"}}}}}},
+    # an inline object that is structurally IDENTICAL to a component schema no operation reaches (bundled / partly dereferenced
+    # documents have such twins): under the default scope the twin is not emitted, so the inline one needs a type of its own
+    "inline-twin-of-orphan": featgen.wrap({"Address": OBJ({"street": {"type": "string"}, "zip": {"type": "string"}}, ["street"]),
+                                           "A": OBJ({"billing": OBJ({"street": {"type": "string"}, "zip": {"type": "string"}}, ["street"]),
+                                                     "stops": {"type": "array", "items": OBJ({"street": {"type": "string"}, "zip": {"type": "string"}}, ["street"])}})},
+                                          body="A", resp="A"),
     # OPTIONAL members named like the locals of the Validate derive's expansion (`errors`, `entry`) that carry a validator
     "validator-local-names": featgen.wrap({"Detail": OBJ({"code": {"type": "string", "minLength": 1}}, ["code"]),
                                            "A": OBJ({"errors": {"type": "array", "minItems": 1, "items": {"type": "string"}}, "entry": S("Detail"),
@@ -158,6 +164,20 @@ def prepare(case):
     if case["op"] in ("comp.gen",):
         i = dict(case["in"])
         i["schemas"] = sorted((i["spec"].get("components") or {}).get("schemas") or {})
+        # component schemas that some `$ref` of the document points to
+        refd = set()
+        def walk(v):
+            if isinstance(v, dict):
+                t = v.get("$ref")
+                if isinstance(t, str) and t.startswith("#/components/schemas/"):
+                    refd.add(t.rsplit("/", 1)[1])
+                for x in v.values():
+                    walk(x)
+            elif isinstance(v, list):
+                for x in v:
+                    walk(x)
+        walk(i["spec"])
+        i["refd"] = sorted(refd)
         return {"op": case["op"], "in": i}
     return case
 
